@@ -46,11 +46,11 @@ def compute_weights(com, pos, dim, n, real_t):
     return nearest, support_copy, weights
 
 
-def warm(real_t):
-    for dim in (2, 3):
+def warm(real_t, dims=(2, 3), kernel_types=("cosine", "peskin")):
+    for dim in dims:
         for dx in DX_PALETTE:
             for n in N_PALETTE[dim]:
-                for kt in ("cosine", "peskin"):
+                for kt in kernel_types:
                     for nc in (1, dim):
                         com, dxr, shift = communicator(dim, dx, n, real_t, nc, kt)
                         pos = np.full((dim, n), 5.3 * float(dxr))
